@@ -460,44 +460,65 @@ func (f *Frame) switchStmt(st *State, s *ast.SwitchStmt, label string) *State {
 	var outs []*State
 	cur := st
 	var deflt *ast.CaseClause
+	var fall *State // state falling through from the previous clause
 	for _, cc0 := range s.Body.List {
 		cc := cc0.(*ast.CaseClause)
 		if cc.List == nil {
 			deflt = cc
+			if fall != nil {
+				f.fail(cc, "fallthrough into default unsupported")
+			}
 			continue
 		}
-		if cur == nil {
-			break
-		}
-		var conds []*Term
-		for _, e := range cc.List {
-			v := f.expr(cur, e)
-			if tag != nil {
-				if v.Sort != tag.Sort {
-					if tag.Sort == SIfc {
-						v = f.convertTo(cur, v, f.typeOf(e), tagT)
+		var s1 *State
+		if cur != nil {
+			var conds []*Term
+			for _, e := range cc.List {
+				v := f.expr(cur, e)
+				if tag != nil {
+					if v.Sort != tag.Sort {
+						if tag.Sort == SIfc {
+							v = f.convertTo(cur, v, f.typeOf(e), tagT)
+						}
 					}
+					conds = append(conds, Eq(tag, v))
+				} else {
+					conds = append(conds, v)
 				}
-				conds = append(conds, Eq(tag, v))
-			} else {
-				conds = append(conds, v)
+			}
+			cond := c.define(Or(conds...), "case")
+			s1 = cur.clone()
+			c.assumeBranch(s1, cond)
+			c.assumeBranch(cur, Not(cond))
+			if s1.pc.Op == "false" {
+				s1 = nil
+			}
+			if cur.pc.Op == "false" {
+				cur = nil
 			}
 		}
-		cond := c.define(Or(conds...), "case")
-		s1 := cur.clone()
-		c.assumeBranch(s1, cond)
-		c.assumeBranch(cur, Not(cond))
-		if hasFallthrough(cc) {
-			f.fail(cc, "fallthrough unsupported")
+		entry := c.merge(s1, fall)
+		fall = nil
+		if entry == nil {
+			continue
 		}
-		if s1.pc.Op != "false" {
-			if r := f.block(s1, cc.Body); r != nil {
-				outs = append(outs, r)
-			}
+		body := cc.Body
+		ft := hasFallthrough(cc)
+		if ft {
+			body = body[:len(body)-1]
 		}
-		if cur.pc.Op == "false" {
-			cur = nil
+		r := f.block(entry, body)
+		if r == nil {
+			continue
 		}
+		if ft {
+			fall = r
+		} else {
+			outs = append(outs, r)
+		}
+	}
+	if fall != nil {
+		outs = append(outs, fall)
 	}
 	if cur != nil {
 		if deflt != nil {
@@ -684,6 +705,9 @@ func (f *Frame) havoc(st *State, vars map[types.Object]bool, heaps map[string]bo
 		}
 		nv := c.fresh("hv!"+o.Name(), v.Val.Sort)
 		v.Val = nv
+		if f.top != nil && f.top.ghostSets[o] {
+			continue
+		}
 		f.assumeWellFormedVal(st, nv, o.Type())
 	}
 	for _, h := range sortedKeysB(heaps) {
